@@ -178,6 +178,21 @@ func Tok(b []byte) string {
 	if len(b) == 0 {
 		return ""
 	}
+	if len(b) > 1<<16 {
+		// huge values (size-limit boundary): "@L<len>.<c>" for a run of one byte, else length and a digest
+		uniform := true
+		for _, c := range b {
+			if c != b[0] {
+				uniform = false
+				break
+			}
+		}
+		if uniform && ((b[0] >= 'a' && b[0] <= 'z') || (b[0] >= '0' && b[0] <= '9')) {
+			return fmt.Sprintf("@L%d.%c", len(b), b[0])
+		}
+		h := sha3.Sum256(b)
+		return fmt.Sprintf("@H%d.%x", len(b), h[:8])
+	}
 	plain := b[0] != 'x'
 	for _, c := range b {
 		if !((c >= '0' && c <= '9') || (c >= 'a' && c <= 'z') || (c >= 'A' && c <= 'Z')) {
